@@ -13,6 +13,13 @@ pub struct Doc { pub cram: bool, pub role: char, pub docskip: Option<i32>, pub t
 
 fn effective_skip(d: &Doc, t: &T) -> i32 { t.inline_skip.or(d.docskip).unwrap_or(80) }
 
+/// a command that outlives its limit: were it not aborted, it would write a line to `late` after SLOW_T / SLOW_G seconds
+pub const SLOW_T: f64 = 1.6;
+pub const SLOW_G: f64 = 2.2;
+fn slow_cmd(kind: char, id: &str, marks: &Path) -> String {
+    format!("sleep {}; echo {} >> {}", if kind == 'T' { SLOW_T } else { SLOW_G }, id, marks.with_file_name("late").display())
+}
+
 fn render_md(d: &Doc, di: usize, marks: &Path) -> String {
     let mut s = String::new();
     if d.docskip.is_some() || d.total_ms.is_some() {
@@ -37,7 +44,7 @@ fn render_md(d: &Doc, di: usize, marks: &Path) -> String {
             'E' => s.push_str(&format!("$ {}; echo foo; (exit {})\nfoo\n[{}]\n", mark, t.code, t.code)),
             'S' => s.push_str(&format!("$ {}; (exit {})\n", mark, effective_skip(d, t))),
             'Q' => s.push_str(&format!("$ {}; exit {}\n", mark, effective_skip(d, t))),
-            'T' | 'G' => s.push_str(&format!("$ {}; sleep 3\n", mark)),
+            'T' | 'G' => s.push_str(&format!("$ {}; {}\n", mark, slow_cmd(t.kind, &id, marks))),
             'D' => s.push_str(&format!("$ {}; sleep 0.05 &\n", mark)),
             'K' => s.push_str(&format!("$ {}; kill -9 $$\n", mark)),
             _ => unreachable!(),
@@ -60,7 +67,7 @@ fn render_cram(d: &Doc, di: usize, marks: &Path) -> String {
             'E' => s.push_str(&format!("  $ {}; echo foo; (exit {})\n  foo\n  [{}]\n", mark, t.code, t.code)),
             'S' => s.push_str(&format!("  $ {}; (exit {})\n", mark, 80)),
             'Q' => s.push_str(&format!("  $ {}; exit {}\n", mark, 80)),
-            'G' => s.push_str(&format!("  $ {}; sleep 3\n", mark)),
+            'G' => s.push_str(&format!("  $ {}; {}\n", mark, slow_cmd('G', &id, marks))),
             'K' => s.push_str(&format!("  $ {}; kill -9 $$\n", mark)),
             _ => unreachable!(),
         }
@@ -146,6 +153,7 @@ pub fn run(docs: &[Doc], cli_timeout: Option<u64>, scrut: &str, base: &Path) -> 
     for m in &mains { cmd.arg(m); }
     if !pres.is_empty() { cmd.arg("--prepend-test-file-paths"); for p in &pres { cmd.arg(p); } }
     if !apps.is_empty() { cmd.arg("--append-test-file-paths"); for p in &apps { cmd.arg(p); } }
+    let started = std::time::Instant::now();
     let out = cmd.output().expect("run scrut");
     let code = out.status.code().unwrap_or(-1);
     let stdout = String::from_utf8_lossy(&out.stdout).to_string();
@@ -164,11 +172,19 @@ pub fn run(docs: &[Doc], cli_timeout: Option<u64>, scrut: &str, base: &Path) -> 
         }
     }
     std::thread::sleep(std::time::Duration::from_millis(if docs.iter().any(|d| d.tests.iter().any(|t| t.kind == 'D')) { 80 } else { 0 }));
+    // C14 "is aborted" / C18 "no directory remains": give a command that was NOT aborted the time to show itself
+    let marks_now = std::fs::read_to_string(&marks).unwrap_or_default();
+    let slow_ran = docs.iter().enumerate().any(|(di, d)| d.tests.iter().enumerate().any(|(i, t)| (t.kind == 'T' || t.kind == 'G') && marks_now.split_whitespace().any(|m| m == format!("D{}T{}", di, i))));
+    if slow_ran {
+        let until = std::time::Duration::from_secs_f64(SLOW_G + 0.35);
+        if started.elapsed() < until { std::thread::sleep(until - started.elapsed()); }
+    }
+    let late = std::fs::read_to_string(dir.path().join("late")).unwrap_or_default().split_whitespace().collect::<Vec<_>>().join(",");
     let marks_s = std::fs::read_to_string(&marks).unwrap_or_default().split_whitespace().collect::<Vec<_>>().join(",");
     let leftover = std::fs::read_dir(&tmpdir).map(|d| d.filter_map(|e| e.ok()).map(|e| e.file_name().to_string_lossy().to_string()).collect::<Vec<_>>()).unwrap_or_default();
-    format!("R {}|cli_timeout={}|exit={}|json={}|{}|marks={}|leftover={}",
+    format!("R {}|cli_timeout={}|exit={}|json={}|{}|marks={}|leftover={}|late={}",
         docs.iter().map(show_doc).collect::<Vec<_>>().join(";"), cli_timeout.map_or("-".to_string(), |t| t.to_string()), code, json_ok as u8,
-        if entries.is_empty() { "-".to_string() } else { entries.join(",") }, if marks_s.is_empty() { "-".to_string() } else { marks_s }, leftover.len())
+        if entries.is_empty() { "-".to_string() } else { entries.join(",") }, if marks_s.is_empty() { "-".to_string() } else { marks_s }, leftover.len(), if late.is_empty() { "-".to_string() } else { late })
 }
 
 pub fn main(args: &[String], w: &mut dyn Write) {
